@@ -79,8 +79,10 @@ def run(ctx):
     for p in impl["pairs"]:
         name = p["name"]
         tol = TOL.get(name, TOL_DEFAULT)
+        # (a non-finite value on one side only arrives as null: always a failure)
         f64_fail = [f for f in p["f64"]["failures"]
-                    if not abs(f["a"] - f["b"]) <= max(F64_RTOL, 10 * tol) * max(abs(f["a"]), abs(f["b"]))]
+                    if f["a"] is None or f["b"] is None
+                    or not abs(f["a"] - f["b"]) <= max(F64_RTOL, 10 * tol) * max(abs(f["a"]), abs(f["b"]))]
         if p.get("oracle_only"):
             # programs too large to regenerate on every change: plain f64 comparison at the sampled states only
             oracle_only.append(name)
